@@ -31,6 +31,8 @@ type MediaSpec struct {
 	Back    bool   `json:"back,omitempty"`
 	Codec   string `json:"codec"` // h264 pcmu opus
 	CtlBad  bool   `json:"ctl_bad,omitempty"` // abstract label: Media.URL must fail on this control
+	Secure  bool   `json:"secure,omitempty"`  // RTP/SAVP with a key-mgmt attribute
+	KeyMgmt string `json:"key_mgmt,omitempty"` // value of the key-mgmt attribute ("" = a valid one is generated)
 }
 
 // Call is one API call of the client program.
